@@ -228,3 +228,45 @@ func c18LuaVerdict(c *core.Ctx) {
 	}
 	c.Check(reg, "the script registers the action the template calls", rel, "", "no core.register_action(\"auth-intercept\" …)")
 }
+
+// ---------------------------------------------------------------------------------------------
+// C12: the reload script of the embedded (non master-worker) mode reports a failed start.
+// ---------------------------------------------------------------------------------------------
+
+func init() {
+	addRule("C12", &core.Rule{ID: "C12.reload-script", Floor: 3, Run: c12ReloadScript,
+		Doc: "rootfs/haproxy-reload.sh (run by reloadEmbeddedDaemon, whose exit status is the verdict of the reload): `set -e` is the first command, every haproxy invocation loads the configuration directory it was given (-f \"$PARAM_CFG\") and hands over from the old process (-sf $OLD_PID), and none of them has its exit status masked (`||`, `;`, `&`, a pipe). Decided on the script's lines with comments removed (shell is not parsed)."})
+}
+
+func c12ReloadScript(c *core.Ctx) {
+	const rel = "rootfs/haproxy-reload.sh"
+	b, err := c.ReadRepoFile(rel)
+	if err != nil {
+		c.MissingAnchor(rel + ": " + err.Error())
+		return
+	}
+	var lines []string
+	for _, l := range strings.Split(string(b), "\n") {
+		t := strings.TrimSpace(l)
+		if t == "" || strings.HasPrefix(t, "#") {
+			continue
+		}
+		lines = append(lines, squash(t))
+	}
+	c.Check(len(lines) > 0 && lines[0] == "set -e", "the script stops at the first failing command", rel, "", "the first command is not `set -e`")
+	n := 0
+	for _, l := range lines {
+		if !strings.HasPrefix(l, "haproxy ") {
+			continue
+		}
+		n++
+		ok := strings.Contains(l, `-f "$PARAM_CFG"`) && strings.Contains(l, "-sf $OLD_PID") && !strings.ContainsAny(l, "|;&")
+		c.Check(ok, fmt.Sprintf("haproxy invocation #%d loads the given configuration and reports its status", n), rel, l, "the invocation is `"+l+"`")
+	}
+	c.Check(n == 2, "the script starts haproxy in both strategies", rel, "", fmt.Sprintf("%d haproxy invocations", n))
+	for _, l := range lines {
+		if strings.HasPrefix(l, "set +e") || strings.Contains(l, "exit 0") || strings.HasPrefix(l, "trap ") {
+			c.Violated("the script does not mask failures", rel, "`"+l+"`")
+		}
+	}
+}
